@@ -19,6 +19,40 @@ private theorem slice_win (buf : List String) (o l : Nat) (ho : o ≤ buf.length
   have h2 : ((buf.length : Int) - o + l - ((buf.length : Int) - o)).toNat = l := by omega
   rw [h1, h2]
 
+/-! ### The model's unbounded integers are faithful: no 64-bit overflow in `GetLogRange` -/
+
+/-- the offset after the two clamps of `getLogRange` -/
+def clampOff (n off : Int) : Int :=
+  let o := if off < 0 then 0 else off
+  if o > n then n else o
+/-- the limit after the two clamps of `getLogRange` -/
+def clampLim (o lim : Int) : Int :=
+  let l := if lim < 1 then 0 else lim
+  if l > o then o else l
+
+/-- `getLogRange` computes with the clamped values only -/
+theorem getLogRange_clamped (buf : List String) (off lim : Int) :
+    getLogRange buf off lim =
+      if (buf.length : Int) = 0 then some [] else
+      if clampLim (clampOff buf.length off) lim = 0 then
+        goSlice buf ((buf.length : Int) - clampOff buf.length off) (buf.length : Int)
+      else goSlice buf ((buf.length : Int) - clampOff buf.length off)
+        ((buf.length : Int) - clampOff buf.length off + clampLim (clampOff buf.length off) lim) := rfl
+
+/-- **Every value `GetLogRange` computes lies between 0 and the buffer length**, whatever the two
+    arguments are: both are clamped before any arithmetic is done on them, so the implementation's
+    64-bit integers cannot overflow and the unbounded integers of the model describe it exactly.
+    (A variant that adds `limit` before clamping overflows for `limit` near `MaxInt64`.) -/
+theorem range_arith_in_bounds (n off lim : Int) (hn : 0 ≤ n) :
+    0 ≤ clampOff n off ∧ clampOff n off ≤ n ∧
+    0 ≤ clampLim (clampOff n off) lim ∧ clampLim (clampOff n off) lim ≤ clampOff n off ∧
+    0 ≤ n - clampOff n off ∧ n - clampOff n off ≤ n ∧
+    0 ≤ n - clampOff n off + clampLim (clampOff n off) lim ∧ n - clampOff n off + clampLim (clampOff n off) lim ≤ n := by
+  unfold clampLim clampOff
+  simp only
+  repeat' split
+  all_goals omega
+
 /-- A range request returns exactly the window, for every buffer and every pair of integers;
     in particular it never panics. -/
 theorem range_spec (buf : List String) (off lim : Int) :
